@@ -12,324 +12,446 @@ Definition show_fres (r : fres) : string :=
   end.
 Definition check (rs : list rune) : string := digest (show_fres (format_res rs)).
 Definition full (rs : list rune) : string := show_fres (format_res rs).
-Eval vm_compute in ("<<<M360>>>" ++ check (runes_of_ascii "options
-{ MetaDataX =
-// packet A { u8 x, }
-// `tick` ""quote"" 'q'
-true	}  root
-// `tick` ""quote"" 'q'
-/// triple
-packet
-u8x{ repeat
-    uint16 u8x `" ++ [28040; 24687; 31867; 22411]%N ++ runes_of_ascii "` , @tag( //
-42
-// " ++ [128512]%N ++ runes_of_ascii " emoji
-/// triple
-) char[ /// triple
-7 ]
-    trueish @lengthOf(
-    // " ++ [27880; 37322]%N ++ runes_of_ascii "
-    Pad
-    ), tag @lengthOf(A)`say ""hi""` , float rootA
-, // " ++ [27880; 37322]%N ++ runes_of_ascii "
-Foo , repeat uint32 calculatedFrom
-, }
-root packet u128 { repeat
-Packet metadata, repeat
-    zchar[
-    0123456789 ] len
-`u8 x,` ,
-f32 BodyLength @lengthOf( Z9_ ) `it's` ,
-match crc as Packet { 0
-//x
-//x
-:
-    i64_ , [ 255]
-:rootA ,
-    [""a	b""	,
-    ""\" ++ [233]%N ++ runes_of_ascii """
-    , ""\" ++ [233]%N ++ runes_of_ascii """	,// `tick` ""quote"" 'q'
-0 /// triple
-, 4294967296
-] :
-i8i8 , } , @tag( 1  )@calculatedFrom(	""\" ++ [233]%N ++ runes_of_ascii """
-    )string f32a@calculatedFrom( ""abc"")  , repeat As{ matchKey
-    {crc
-    /// triple
-    @calculatedFrom(
-    ""// no comment"" //x
-),
-} ,lengthOf//
-`crlf
-line`
-    // packet A { u8 x, }
-    ,
-// a // b
-// a // b
-T //
-Pad `a\` , repeat i8i8 charz ,// a // b
-}  , }
-    packet	packetx{ @lengthOf( Packet
-    )
-repeat
-    uint8x
-//
-// " ++ [128512]%N ++ runes_of_ascii " emoji
-`line1
-line2` ,@tag( 0123456789 ) string BodyLength @calculatedFrom(  """ ++ [28040; 24687]%N ++ runes_of_ascii """) ,// trailing space 
-zchar[42
-]
-MetaDataX
-    //
-    , char
-    A @lengthOf(
-    /// triple
-    tag ) `two words`, @tag(
-    10 ) @calculatedFrom(""" ++ [28040; 24687]%N ++ runes_of_ascii """
-// `tick` ""quote"" 'q'
-//x
-)
-@calculatedFrom(
-    ""x y"" ) char[ 7 ] repeatCount @calculatedFrom(
-""// no comment""
-    )	,@calculatedFrom(
-""it's"" )	char[	65535 ]
-packetx`// not a comment` ,
-@leftPad //	t
-( ' ' ) match  tag as packetx
-{ 00 : int ,
-    } , @tag( 7
-//
-// " ++ [128512]%N ++ runes_of_ascii " emoji
-)@lengthOf(
-    // @lengthOf(
-    float
-    ) @tag(  0123456789	) Z9_ , @tag( // c
-00 )tag { uint16
-MetaDataX
-    ,
-    u tag	`tab	here`,float64 Packet @calculatedFrom( ""{,}"" )	, x_y_z u128 ,
-} , char[] msg_type @lengthOf( calculatedFrom ) `line1
-line2`
-    , } MetaData // " ++ [27880; 37322]%N ++ runes_of_ascii "
-float{
-    uint32
-crc, charz msg_type , u128 crc , string stringy
-`" ++ [233]%N ++ runes_of_ascii "`, }")).
-Eval vm_compute in ("<<<M386>>>" ++ check (runes_of_ascii "options {
-    StringPrefixLenType = u16;
-    ArrayPrefixLenType = u16;
+Eval vm_compute in ("<<<M1357>>>" ++ check (runes_of_ascii "// top
+options
+    // c0
+{ StringPrefixLenType = // c3a
+  // c3b
+u16 ; ArrayPrefixLenType // c6a
+  // c6b
+= // c7a
+  // c7b
+u32 // c8
+; // c9
+FixedStringPadFromLeft // c10
+=
+    // c11
+true
+    // c12
+; // c13a
+  // c13b
+FixedStringPadChar // c14
+= // c15a
+  // c15b
+'0'
+    // c16
+; // c17a
+  // c17b
 }
-
-packet SampleBinary {
-    uint16 MsgType `" ++ [28040; 24687; 31867; 22411]%N ++ runes_of_ascii "`,
-    u16 BodyLenght @lengthOf(Body) `" ++ [28040; 24687; 20307; 38271; 24230]%N ++ runes_of_ascii "`,
-    match MsgType as Body {
-        1 : Logon,
-        2 : Logout,
-        3 : Heartbeat,
-        4 : RiskControlRequest,
-        5 : RiskControlResponse,
-    },
-    @calculatedFrom(""CRC32"")
-    u32 Ckecksum `" ++ [26657; 39564; 21644]%N ++ runes_of_ascii "`,
-}
-
-packet Logon {
-    @leftPad('0')
-    char[10] UserName `" ++ [29992; 25143; 21517]%N ++ runes_of_ascii "`,
-    string Password `" ++ [23494; 30721]%N ++ runes_of_ascii "`,
-    uint64 ClientId `" ++ [23458; 25143; 31471]%N ++ runes_of_ascii "ID`,
-    u16 HeartbeatInterval `" ++ [24515; 36339; 38388; 38548]%N ++ runes_of_ascii "`,
-}
-
-packet Logout {
-    @rightPad('0')
-    char[10] UserName `" ++ [29992; 25143; 21517]%N ++ runes_of_ascii "`,
-    uint64 ClientId `" ++ [23458; 25143; 31471]%N ++ runes_of_ascii "ID`,
-}
-
-packet Heartbeat {
-}
-
-packet RiskControlRequest {
-    string UniqueOrderId `" ++ [21807; 19968; 35746; 21333; 21495]%N ++ runes_of_ascii "`,
-    char[16] ClOrdID `" ++ [23458; 25143; 35746; 21333; 21495]%N ++ runes_of_ascii "`,
-    char[3] MarketID `" ++ [24066; 22330]%N ++ runes_of_ascii "id`,
-    char[12] SecurityID `" ++ [35777; 21048; 20195; 30721]%N ++ runes_of_ascii "`,
-    char Side `" ++ [20080; 21334; 26041; 21521]%N ++ runes_of_ascii "`,
-    char OrderType `" ++ [35746; 21333; 31867; 22411]%N ++ runes_of_ascii "`,
-    u64 Price `" ++ [20215; 26684]%N ++ runes_of_ascii "`,
-    u32 Qty `" ++ [25968; 37327]%N ++ runes_of_ascii "`,
-    repeat string ExtraInfo `" ++ [38468; 21152; 20449; 24687]%N ++ runes_of_ascii "`,
-    repeat SubOrder {
-        char[16] ClOrdID `" ++ [23376; 35746; 21333; 21495]%N ++ runes_of_ascii "`,
-        u64 Price `" ++ [23376; 35746; 21333; 20215; 26684]%N ++ runes_of_ascii "`,
-        u32 Qty `" ++ [23376; 35746; 21333; 25968; 37327]%N ++ runes_of_ascii "`,
-    },
-}
-
-packet RiskControlResponse {
-    string UniqueOrderId `" ++ [21807; 19968; 35746; 21333; 21495]%N ++ runes_of_ascii "`,
-    i32 Status `" ++ [29366; 24577]%N ++ runes_of_ascii "`,
-    string Msg `" ++ [32467; 26524; 20449; 24687]%N ++ runes_of_ascii "`,
-    repeat Detail,
-}
-
-packet Detail {
-    string RuleName `" ++ [35268; 21017; 21517; 31216]%N ++ runes_of_ascii "`,
-    u16 Code `" ++ [21407; 22240; 20195; 30721]%N ++ runes_of_ascii "`,
-}")).
-Eval vm_compute in ("<<<M1771>>>" ++ check (runes_of_ascii "
-packet
-MetaDataX{
-    metadata
-trueish`" ++ [233]%N ++ runes_of_ascii "` 
-    //x
-      //x
-,	// trailing space 
-  @calculatedFrom( ""`tick`"")
-	uint8x
-// c
-	@calculatedFrom(
-    """ ++ [128512]%N ++ runes_of_ascii """
-    )`{ , }` , 
-@calculatedFrom(
-    ""a\""b""
-)	// packet A { u8 x, }
-
-match
-	Packet  as
-	body {  3
-:
-    repeatCount , ""x y"" 
-    /// triple
-  :lengthOf // `tick` ""quote"" 'q'
-	  4294967296 : 
-packetx	, [  ""abc""
-    ,  ""// no comment""
-    ,
-    ""abc""
-	, 
-""\n"" 	 //	t
-    ,
-    ""1"" 
-]
-    :
-    u128 [
-
-00 
+    // c18
+packet Cancel // c20a
+  // c20b
+{ // c21
+} // c22a
+  // c22b
+packet Party // c24a
+  // c24b
+{ // c25
+} // c26
+packet // c27a
+  // c27b
+Logon
+    // c28
+{ // c29
+} packet // c31
+Ack // c32
+{ // c33
+} packet
+    // c35
+Logout { // c37a
+  // c37b
+repeat // c38
+InSym87 // c39a
+  // c39b
+{
+    // c40
+InClordid94 // c41a
+  // c41b
+{ // c42a
+  // c42b
+string // c43
+clOrdID // c44
+, // c45
+} // c46a
+  // c46b
 ,
-65535 
-,	""x y""
-    ,
-	""{,}""
-	]: calculatedFrom  ,	7
-	:i8i8
-	}
-    , u8x
-, match
-
-    int 
-as
-matchKey {[
-1	,
-""CRC32""
-    ]
-// trailing space 
-  : 	 // @lengthOf(
-
-  asx
-,	} ,
-	@lengthOf(  // " ++ [128512]%N ++ runes_of_ascii " emoji
-    	a1  )
-    string
-x`it's`,repeat  // @lengthOf(
-    char matchKey 
-, 
-	// a // b
-      @leftPad // trailing space 
-()
-    @rightPad
-( )
-	match	metadata
-    as Packet  {
-    [
-65535  ]
-	:
-
-Header  ,
-}
-
-,@tag(
-
-255 
-) 
-zchar[3]
-crc 
-`u8 x,` , 
-}
-
-MetaData
-rootA // trailing space 
-{ i8i8
-Pad,
-    int8  packetx  `{ , }`,
-	int8	stringy ,
-    // `tick` ""quote"" 'q'
-    	body _x , body
-
-o
-    , 
-}
+    // c47
+string
+    // c48
+Px // c49a
+  // c49b
+,
+    // c50
+i16 // c51
+Qty // c52a
+  // c52b
+,
+    // c53
+repeat
+    // c54
+InCount71 // c55a
+  // c55b
+{ // c56
+repeat
+    // c57
+Cancel // c58a
+  // c58b
+, // c59a
+  // c59b
+uint16 // c60a
+  // c60b
+Tail , // c62
+char[
+    // c63
+2 // c64a
+  // c64b
+] // c65a
+  // c65b
+x
+    // c66
+, // c67a
+  // c67b
+repeat // c68a
+  // c68b
+string Ref
+    // c70
+,
+    // c71
+} // c72
+, // c73
+Cancel , } // c76
+, // c77a
+  // c77b
+} // c78a
+  // c78b
+root // c79
+packet // c80
+Order
+    // c81
+{ // c82
+repeat
+    // c83
+string tag7
+    // c85
+, // c86a
+  // c86b
+@leftPad // c87
+( ' ' ) char[ // c91a
+  // c91b
+3 // c92
+] // c93
+Px , u8 // c96
+Qty // c97
+, match Qty // c100
+as // c101
+Body
+    // c102
+{ // c103
+[
+    // c104
+28 // c105a
+  // c105b
+,
+    // c106
+62 // c107a
+  // c107b
+] // c108
+:
+    // c109
+Logon ,
+    // c111
+148 // c112a
+  // c112b
+: Ack ,
+    // c115
+88 // c116
+: Party
+    // c118
+, 184 : Cancel ,
+    // c123
+} // c124a
+  // c124b
+,
+    // c125
+u16 // c126
+Note @calculatedFrom( // c128a
+  // c128b
+""CRC32"" // c129
+) // c130
+, } // c132
 ")).
-Eval vm_compute in ("<<<M1462>>>" ++ check (runes_of_ascii "root packet repeatCount {
-    @lengthOf(u8x)
-    @calculatedFrom(""1"")
-    @tag(007)
-    repeat zchar[42] Header `" ++ [28040; 24687; 31867; 22411]%N ++ runes_of_ascii "`,
-    match options1 as asx {
-        255 : roots,
-    },// a // b
-    Header @lengthOf(options1) ``,
-    Header @lengthOf(len) `{ , }`,
-    o matchKey `u8 x,`,
-}
+Eval vm_compute in ("<<<M1580>>>" ++ check (runes_of_ascii "
 
-packet packetx {
-    zchar[255] crc,
-}
+  root
+    packet metadata
+	{
+    @lengthOf(
+options1)
 
-packet Logon {
-    body {
-        float {
-            repeat Logon trueish,
-        },
-    },
-    @calculatedFrom(""`tick`"")
-    repeat char[0] f32a,
-    match body as float {
-        [65535, """ ++ [28040; 24687]%N ++ runes_of_ascii """] : calculatedFrom,
-    },
-    u32 float @calculatedFrom(""" ++ [233]%N ++ runes_of_ascii "t" ++ [233]%N ++ runes_of_ascii """),
-    string body @lengthOf(len) `
-        `,
-    u8x @calculatedFrom(""a\""b""),//	t
-    float64 options1 @calculatedFrom(""" ++ [128512]%N ++ runes_of_ascii """) `it's`,
-    //x
+    int32 zchar
+	@calculatedFrom(""// no comment""
+
+    )
+	`
+`
+,
+
+repeat
+	calculatedFrom `it's`,	//
+  match
+BodyLength
+	as	lengthOf  { 3  /// triple
+	:leftPad	,} , repeat  u128  ,  char[
+    10	]chars ,// @lengthOf(
+	falsey @calculatedFrom(""x y"" )  // c
+`{ , }`
+,
+	@tag(
+42)
+
+float64	i64_
+// packet A { u8 x, }
+
+	,
+u8x @calculatedFrom( ""{,}""
+
+    ) `two words`  
+      //	t
     // trailing space 
-    match crc as chars {
-        3 : options1,
-        [10] : _x,
-        [""{,}""] : options1,
-        [""CRC32"", ""a\\"", ""a\\"", ""packet"", 7] : As,
-    },
-    i16 msg_type,
-}")).
-Eval vm_compute in ("<<<M1368>>>" ++ check (runes_of_ascii "options {
+  , 
+@lengthOf(
+T ) char[
+    255
+]pack `it's` 
+,
+	match 
+MetaDataX
+as
+
+i64_  {  
+      //
+    """ ++ [28040; 24687]%N ++ runes_of_ascii """	// @lengthOf(
+
+	:
+Header
+
+    ,
+
+    0
+//
+  	: 
+x_y_z
+
+3
+:// `tick` ""quote"" 'q'
+
+int
+""abc""
+// @lengthOf(
+
+:u8x
+
+,
+
+    } ,	}
+    packet	i64_
+{
+
+@rightPad
+(
+    ) 	 /// triple
+  	pack
+    { 
+match
+	MetaDataX  as
+
+    trueish
+    {
+
+1	// @lengthOf(
+	:len
+	00
+
+:
+
+falsey  // packet A { u8 x, }
+  , """": x
+,
+
+    } 
+,
+}
+
+,
+    @tag( 1
+) 
+char[]
+	int  @lengthOf( metadata )  // packet A { u8 x, }
+	  ,  a1
+
+@lengthOf(
+
+    calculatedFrom ) ,@tag(	7
+)
+tag @lengthOf(
+    u
+
+)  ,
+BodyLength 	 /// triple
+	@calculatedFrom(
+	""it's"" 
+)
+	`say ""hi""` , string msg_type , } MetaData	Logon { 
+BodyLength 
+_x
+`it's`
+
+,  int32	body  , 
+
+// trailing space 
+}
+    root packet
+    body
+{
+}
+
+")).
+Eval vm_compute in ("<<<M1355>>>" ++ check (runes_of_ascii "options	{ 
+StringPrefixLenType 
+=
+
+    u64; ArrayPrefixLenType =u32 ;FixedStringPadFromLeft=	false ;
+} 
+packet	Party {
+    zchar[ 7	]OrderId
+	, InTail6
+
+{  repeat 
+char[
+
+1 ]
+
+msgKind
+,
+char[
+
+    3 ]	Tail
+	,
+char[
+3
+]
+    Flags , i16  tag7
+    , }  ,
+	@rightPad
+	(
+
+'0'
+) char[  12
+    ]clOrdID
+	,
+    }
+
+    packet
+	Quote
+{ @leftPad
+
+    ('0'  )
+
+char[
+    11]  price	,	repeat InCount7
+{
+i32
+
+x,
+Party
+    ,  u8 Ref,
+    u8 
+tag7
+
+    , 
+} , char[]
+    seqNo,
+
+    Party 
+,}
+packet  Logon
+
+    {
+
+@rightPad 
+(	'\x00'
+
+    ) 
+char[
+
+5 
+]	Note 
+,	i16
+
+    sym ,InPrice72
+{
+    char[
+
+    9] Ref
+
+    ,zchar[ 1
+] venue ,
+
+    }
+,  char[]
+clOrdID ,	}
+	root
+packet	Reject
+
+{
+repeat
+
+    Logon	,
+
+    @leftPad
+
+    (	' ' ) char[  4
+
+    ]
+
+    seqNo
+
+, zchar[ 5
+	]
+Acct ,
+	u32
+
+x 
+,u16  f1
+	@lengthOf(Body
+
+)
+
+    , 
+match
+x as
+Body
+{
+
+    [  169 ,
+
+    74	]	: Quote , 45
+: 
+Party
+, 7 
+: Logon
+
+    ,
+}
+
+    ,
+
+} ")).
+Eval vm_compute in ("<<<M1880>>>" ++ check (runes_of_ascii "options {
     FixedStringPadFromLeft = true;
     FixedStringPadChar = '0';
 }
+
 packet Leg {
     repeat InSym93 {
         zchar[3] Acct,
@@ -341,9 +463,11 @@ packet Leg {
     f64 Note,
     uint16 Px,
 }
+
 packet Quote {
     zchar[2] OrderId,
 }
+
 packet Ack {
     repeat string lastPx,
     zchar[4] price,
@@ -351,18 +475,23 @@ packet Ack {
     Quote,
     int8 Acct,
 }
+
 packet Fill {
     repeat Leg,
-    @rightPad('0') char[11] Note,
+    @rightPad('0')
+    char[11] Note,
     f64 Px,
-    @rightPad('\x00') char[5] Flags,
+    @rightPad('\x00')
+    char[5] Flags,
     zchar[9] x,
     string msgKind,
 }
+
 root packet Order {
     Leg,
     repeat Ack,
-    @rightPad('\x00') char[3] Side2,
+    @rightPad('\x00')
+    char[3] Side2,
     repeat char[1] seqNo,
     u16 clOrdID,
     match clOrdID as Body {
@@ -371,400 +500,425 @@ root packet Order {
         13 : Ack,
         159 : Fill,
     },
-    u32 venue @calculatedFrom(""CRC32""),
-}
-")).
-Eval vm_compute in ("<<<M1813>>>" ++ check (runes_of_ascii "// top
-options {
-    // c1
-    StringPrefixLenType = u8;// c5a
-    // c5b
-    ArrayPrefixLenType = u8;// c9
-    FixedStringPadFromLeft = false;// c13
-    FixedStringPadChar = ' ';// c17a
-    // c17b
+    u32 venue @calculatedFrom(""CR\
+    C32""),
+}")).
+Eval vm_compute in ("<<<M1454>>>" ++ check (runes_of_ascii "packet calculatedFrom {
+    // a // b
+    string charz `two words`,
 }
 
-// c18
-packet Ack {
-    // c21
-    char[] tag7,
-}
-
-// c25
-packet Reject {
-    InSym61 {
-        // c30
-        repeat Ack,
-        zchar[4] f1,
-    },
-}// c41
-
-packet Logout {
-    // c44
-    char[4] clOrdID,// c49
-}
-
-// c50
-root packet Cancel {
+packet stringy {
+    @lengthOf(msg_type)
+    crc,
+    @leftPad('0')
+    crc @lengthOf(u128),
     @leftPad(' ')
-    char[10] price,
-    // c63
-    u8 x,
-    u32 venue @lengthOf(Body),// c72
-    match x as Body {
-        // c77
-        [92, 175] : Logout,
-        26 : Reject,
-        // c89a
-        // c89b
-        144 : Ack,
-    },// c95
-    u16 count @calculatedFrom(""CRC32""),
+    match x_y_z as rootA {
+        [3, 255] : int,
+        ""1"" : o,
+        // a // b
+        10 : tag,
+        // c
+        10 : Header,
+        3 : a1,
+        """ ++ [128512]%N ++ runes_of_ascii """ : packetx,
+    },
+    match o as x {
+        ""a	b"" : u8x,
+    },
+    @rightPad()
+    repeat u packetx,
+    T,
+    repeat Logon,
+    T {
+        repeat x_y_z,// a // b
+        i8 crc `two words`,
+        char[] calculatedFrom @calculatedFrom(""x y""),
+    },
+    roots calculatedFrom,
+    @lengthOf(asx)
+    repeat x_y_z {
+        T matchKey,
+    },
+}
+
+options {
+    float = char[1];
+    msg_type = i8
+    x = zchar[7];
+    f32a = ""\n""
 }")).
-Eval vm_compute in ("<<<M288>>>" ++ check (runes_of_ascii "// packet A { u8 x, }
-MetaData
-    _x
-{ //
-char[] len
-    ,}options
-// @lengthOf(
-//
-{ repeatCount =""""
-    ; }// c
-root packet chars {
-    char[ 255
-]u8x,	repeat
-/// triple
-// c
-string repeatCount
-`" ++ [28040; 24687; 31867; 22411]%N ++ runes_of_ascii "` ,
-repeat zchar[ 10
-]
-string_ , @tag( // trailing space 
-255
-    ) i8i8{// packet A { u8 x, }
-options1
-calculatedFrom `u8 x,`
-,
-    i64
-len,
-    roots // c
-{ // @lengthOf(
-repeat
-    // a // b
-    i64_ zchar //
-,
-    } ,
-    }
-, match chars as Packet	{
-""a\""b"": Pad
-,[ ""{,}""
-    ]
-:
-calculatedFrom // a // b
-,
-""" ++ [233]%N ++ runes_of_ascii "t" ++ [233]%N ++ runes_of_ascii """
-//x
-// `tick` ""quote"" 'q'
-: uint8x ,[ // packet A { u8 x, }
-""`tick`"" ,0
-    , 42
-    ] : _x[ 0123456789	, ""\" ++ [233]%N ++ runes_of_ascii """
-    ] :
-i8i8,	} ,	}
-")).
-Eval vm_compute in ("<<<M1422>>>" ++ check (runes_of_ascii "root packet asx {
-    tag body `u8 x,`,
-}
-
-packet string_ {
-    @lengthOf(len)
-    repeat zchar[42] u8x,
-    zchar[0] asx,
-}
-
-packet int {
-    repeat crc {
-        zchar float,
-        match i8i8 as rootA {
-            255 : lengthOf,
-            1 : lengthOf,
-            3 : roots,
-            3 : uint8x,
-            0 : As,
-            ""`tick`"" : repeatCount,
-        },
-        repeat char[] falsey,
-        u64 lengthOf,
-    },
-    @lengthOf(crc)
-    lengthOf i64_,
-    leftPad `crlf
-    line`,
-}
-
-root packet zchar {
-    f32 _x @calculatedFrom(""a\\""),
-}
-
-MetaData chars {
-    //
-}")).
-Eval vm_compute in ("<<<M65>>>" ++ check (runes_of_ascii "packet leftPad {
-match A as x {""`tick`""
-    : MetaDataX //
-, [""it's""
-,""\n"" ,
-""" ++ [28040; 24687]%N ++ runes_of_ascii """ ] :
-string_ , 0123456789 : o ,
-[
-""{,}"", ""x y"" ]
-:uint8x	} , char[3	] msg_type// " ++ [128512]%N ++ runes_of_ascii " emoji
-@lengthOf( u
-//	t
-// " ++ [27880; 37322]%N ++ runes_of_ascii "
-)`two words` ,
-    // c
-    repeat
-    int
-// packet A { u8 x, }
-// @lengthOf(
-Foo ,
-@rightPad
-(
-    )
-@rightPad
-( ' ' )
-    Foo charz`{ , }`, }
-MetaData A {
-zchar[
-0 ]A `{ , }`
-    , float32 a1
-    //
-    ,
-    char[]  pack , /// triple
-string body `" ++ [233]%N ++ runes_of_ascii "` , string chars `doc` , int _x`two words`
-,} options { Z9_ =
-    uint16 ; }")).
-Eval vm_compute in ("<<<M1237>>>" ++ check (runes_of_ascii "// top
-options // c0
-{ // c1
-zchar // c2
-= // c3
-true // c4
-; // c5
-Pad // c6
-= // c7
-char[ // c8
-00 // c9
-] // c10
-a1 // c11
-= // c12
-uint32 // c13
-BodyLength // c14
-= // c15
-true // c16
-; // c17
-} // c18
-root // c19
-packet // c20
-T // c21
-{ // c22
-@lengthOf( // c23
-repeatCount // c24
-) // c25
-@tag( // c26
-1 // c27
-) // c28
-@calculatedFrom( // c29
-""a	b"" // c30
-) // c31
-string // c32
-stringy // c33
-@calculatedFrom( // c34
-""\n"" // c35
-) // c36
-`u8 x,` // c37
-, // c38
-} // c39
-")).
-Eval vm_compute in ("<<<M1113>>>" ++ check (runes_of_ascii "// top
-packet // c0
-float // c1
-{ // c2
-@rightPad // c3
-( // c4
-) // c5
-rootA // c6
-@lengthOf( // c7
-trueish // c8
-) // c9
-, // c10
-stringy // c11
-@lengthOf( // c12
-matchKey // c13
-) // c14
-, // c15
-char[ // c16
-4294967296 // c17
-] // c18
-pack // c19
-@lengthOf( // c20
-uint8x // c21
-) // c22
-, // c23
-} // c24
-root // c25
-packet // c26
-trueish // c27
-{ // c28
-repeat // c29
-uint64 // c30
-u128 // c31
-`line1
-line2` // c32
-, // c33
-} // c34
-")).
-Eval vm_compute in ("<<<M1332>>>" ++ check (runes_of_ascii "options {
-    LittleEndian = false;
-    StringPrefixLenType = u8;
-    ArrayPrefixLenType = u64;
-    FixedStringPadFromLeft = false;
-    FixedStringPadChar = ' ';
-}
-packet Reject {
-    repeat char[4] seqNo,
-    string Px,
-}
-root packet Trade {
-    @rightPad('0') char[2] msgKind,
-    repeat f64 price,
-    InAcct79 {
-        repeat Reject,
-        zchar[7] OrderId,
-    },
-    Reject,
-}
-")).
-Eval vm_compute in ("<<<M248>>>" ++ check (runes_of_ascii "packet a1
-    { char[]	charz @calculatedFrom(
-    //x
-    """ ++ [28040; 24687]%N ++ runes_of_ascii """)
-,
-    uint8x`crlf
-line`
-    , uint64 T  `line1
-line2` ,
-    @leftPad (
-'0')
-// a // b
-/// triple
-@calculatedFrom( ""abc"" )
-@tag( 3 ) match
-int // a // b
-as len
-{ 0	:  chars, [ 10, ""a\\"",
-1 ,0 ,10 , 0
-    ] : body, 007 :
-    // a // b
-    rootA // a // b
-, } , falsey options1 , }
-")).
-Eval vm_compute in ("<<<M1385>>>" ++ check (runes_of_ascii "options {
-    LittleEndian = true;
-}
-packet Logon {
-    u8 x,
-}
-packet Logout {
-    u16 reason,
-}
-root packet Frame {
-    u64 Kind,
-    u64 Kind2,
-    match Kind as Body {
-        1 : Logon,
-        [2, 3, 4] : Logout,
-        100 : Logon,
-    },
-    match Kind2 as Trailer {
-        0 : Logout,
-    },
-}
-")).
-Eval vm_compute in ("<<<M1613>>>" ++ check (runes_of_ascii "packet FooBar // c1
-		{
-	u8
-
-    a
+Eval vm_compute in ("<<<M1416>>>" ++ check (runes_of_ascii "packet // packet A { u8 x, }
+		u8x {
+}  root
+packet
+    matchKey
+{ repeat 
+zchar[ 0123456789  ]// packet A { u8 x, }
+	int
 , 
-    // c5
-    }	// c6
-  packet
-    foo_bar 	 // c8a
-  	// c8b
-  {
+char[ 
+    // `tick` ""quote"" 'q'
+      // a // b
+4294967296 ]asx`{ , }`  ,
 
-// c9
-u16
-        // c10
+    repeat 
+i8i8, repeat Packet {
+    repeat leftPad{	f32
 
-b
+    u128
 
-,  // c12a
-  // c12b
-    }  // c13
+    @lengthOf(
+	As ) ,
+	body
+	`two words`, 	 // packet A { u8 x, }
+  rootA
 
-root// c14
-      packet R {  // c17a
-	  // c17b
+    Pad,  }
 
-FooBar ,  
-  // c19
+    ,char[00
+    ]msg_type
 
-	foo_bar 	 // c20
-	,  }")).
-Eval vm_compute in ("<<<M234>>>" ++ check (runes_of_ascii "//	t
-options{
-    chars=true As= char[]
-// trailing space 
-// " ++ [128512]%N ++ runes_of_ascii " emoji
-; /// triple
-x_y_z	= 7; // " ++ [27880; 37322]%N ++ runes_of_ascii "
-i8i8 = true packetx = /// triple
-' ' } root packet	x_y_z {repeat
-    char[
-    42
-    //x
-    ] //	t
-Pad,
-    }
-// packet A { u8 x, }
+`tab	here`// " ++ [128512]%N ++ runes_of_ascii " emoji
+  , repeat
+//x
+      i64_`doc`
+, zchar x_y_z
+, }
+
+    ,} root
+
+    packet int	{repeat f32a
+
+{repeat
+f32a  asx 
+`u8 x,`
+    , 
+}, @lengthOf( 
+// @lengthOf(
+	//	t
+	msg_type// packet A { u8 x, }
+	)
+
+    body
+,  
+  // c
+//
+Z9_ 	 // c
+
+	zchar	`a\` //x
+,}  //x
+ 
 ")).
-Eval vm_compute in ("<<<M1303>>>" ++ check (runes_of_ascii "// top
-packet
-    // c0
-order_item // c1
-{ u8 // c3
-a // c4a
-  // c4b
-, // c5
-} root // c7
-packet
-    // c8
-new_order
-    // c9
-{ // c10
-order_item
-    // c11
+Eval vm_compute in ("<<<M23>>>" ++ check (runes_of_ascii "MetaData lengthOf
+{ }
+MetaData falsey { // " ++ [27880; 37322]%N ++ runes_of_ascii "
+falsey i64_
+`
+`	, zchar[ 255	] u `two words` ,	BodyLength int , matchKey	i8i8 `crlf
+line` ,uint8x	asx ,
+char[]options1 ,	}packet
+    asx  {	@lengthOf( o
+)@calculatedFrom(//
+""\n"" ) char[] lengthOf  `two words`// c
 ,
-    // c12
-u8 // c13a
-  // c13b
-x ,
-    // c15
+    BodyLength `" ++ [233]%N ++ runes_of_ascii "` ,repeat u8x len // " ++ [27880; 37322]%N ++ runes_of_ascii "
+`doc`
+, int
+@calculatedFrom(
+""a\\""
+    ) `line1
+line2`,@lengthOf( MetaDataX
+)
+Packet packetx
+    // `tick` ""quote"" 'q'
+    , a1 {
+    match Logon	as
+// " ++ [128512]%N ++ runes_of_ascii " emoji
+/// triple
+len {	4294967296
+:matchKey , [
+1  , 10 , 10 ,
+""{,}"" , """ ++ [233]%N ++ runes_of_ascii "t" ++ [233]%N ++ runes_of_ascii """ , 0123456789]: leftPad ,  3
+    :msg_type ,
+//	t
+//x
+1 : As
+,} ,
+    chars , }
+    ,}
+")).
+Eval vm_compute in ("<<<M1680>>>" ++ check (runes_of_ascii "packet
+A { 	 // c2a
+// c2b
+    	u8 
+      // c3
+
+	a, 
+  // c5
+      } 	 // c6a
+// c6b
+  packet
+	B  // c8
+{ // c9
+  u16 
+
+    // c10
+	  b 	 // c11
+    	,  // c12
+
+} 	 // c13a
+    // c13b
+  root// c14a
+      // c14b
+    packet 	 // c15a
+
+  // c15b
+  P 
+    // c16
+
+	{u8	// c18a
+  // c18b
+      K	// c19
+, match // c21
+
+K// c22a
+
+// c22b
+  as// c23
+M 	 // c24
+  {  // c25a
+  // c25b
+		1
+
+    : 	 // c27a
+// c27b
+	A  // c28a
+	  // c28b
+    , 
+	    // c29
+	1 
+  // c30
+    :
+	B  
+      // c32
+	  , 
+      // c33
+    } 	 // c34a
+  // c34b
+, 
+    // c35
+  }
+")).
+Eval vm_compute in ("<<<M1440>>>" ++ check (runes_of_ascii "root packet lengthOf {
+    char[3] Pad,
+    @rightPad('0')
+    crc `doc`,
+    i32 uint8x,
+    zchar {
+        match Logon as int {
+            [0, """ ++ [233]%N ++ runes_of_ascii "t" ++ [233]%N ++ runes_of_ascii """] : o,
+            ""// no comment"" : len,
+        },
+        asx {
+            //x
+            char[10] u128 @lengthOf(x_y_z) `say ""hi""`,
+        },
+        char[1] A,
+        u chars ``,
+    },
+    repeat matchKey {
+        //x
+        string trueish @calculatedFrom(""a	b""),
+        repeat i8 msg_type `it's`,
+    },/// triple
+}
+
+packet float {
+}")).
+Eval vm_compute in ("<<<M264>>>" ++ check (runes_of_ascii "options  {
+    float
+=
+    char[]
+} // packet A { u8 x, }
+root packet
+    Logon
+    { @tag( 1 ) // a // b
+@calculatedFrom( ""packet""
+// a // b
+// " ++ [128512]%N ++ runes_of_ascii " emoji
+)zchar[ 3 ]
+// c
+//x
+Z9_ ,@lengthOf( charz )
+@calculatedFrom( ""1""
+)match
+roots
+as int
+    { ""a	b""
+:MetaDataX , }
+    ,@calculatedFrom( ""a\""b""	)
+    match
+    asx as lengthOf { """ ++ [128512]%N ++ runes_of_ascii """
+    : _x,
+[ 255 ] : BodyLength
+    ,3 :
+    u8x , 0123456789:T} ,
+    len@lengthOf(leftPad )`u8 x,` , } // @lengthOf(")).
+Eval vm_compute in ("<<<M1441>>>" ++ check (runes_of_ascii "// top
+MetaData Packet {
+    // c2
+}
+
+// c3
+packet charz {
+    // c6
+    Foo asx `it's`,
+    // c10
+    @lengthOf(T)
+    // c13
+    @calculatedFrom("""")
+    // c16
+    @calculatedFrom(""x y"")
+    // c19
+    zchar[007] repeatCount @lengthOf(int) `a\`,
+    // c28
+    i8 string_,
+    // c31
+    repeat options1 Pad,
+    // c35
+}
+
+// c36
+root packet Packet {
+    // c40
+    int8 float `doc`,
+    // c44
+}
+// c45")).
+Eval vm_compute in ("<<<M1624>>>" ++ check (runes_of_ascii "// top
+root packet _x {
+    match Foo as Z9_ {
+        // c8
+        ""a	b"" : Pad,
+        // c12
+    },// c14
+    repeat x `line1
+        line2`,// c18
+    @rightPad(' ')
+    // c22
+    @calculatedFrom(""a\\"")
+    // c25a
+    // c25b
+    metadata MetaDataX,
+    @tag(0)
+    // c31
+    Logon int ``,
+    // c35
+}// c36
+
+options {
+    // c38
+    T = '\x00'
+}// c42a
+// c42b")).
+Eval vm_compute in ("<<<M77>>>" ++ check (runes_of_ascii "
+packet	float { char[ 42] int`say ""hi""` , @tag( 255// packet A { u8 x, }
+) match// a // b
+stringy  as
+    x { [ 00 ,42
+]: i64_ 42 : matchKey , [ ""1"" , 1
+, 42
+    ,
+""" ++ [28040; 24687]%N ++ runes_of_ascii """ , ""abc"" ,
+// a // b
+//x
+1 // trailing space 
+]
+: //
+roots
+,
+    65535
+: trueish ,	} ,@calculatedFrom( ""{,}"" )body @calculatedFrom(""" ++ [28040; 24687]%N ++ runes_of_ascii """ ) , zchar[
+    007 ] lengthOf, }
+")).
+Eval vm_compute in ("<<<M368>>>" ++ check (runes_of_ascii "MetaData T
+    {
+uint8
+float ,
+repeatCount x ,	char[ 10  ] asx /// triple
+, char[ 00]
+metadata
+    `" ++ [233]%N ++ runes_of_ascii "` ,u8x asx//	t
+, } MetaData
+    trueish {	charz	string_ `crlf
+line`,  zchar[ 42 ]	_x
+//
+// `tick` ""quote"" 'q'
+, }packet o { char[]u8x
+    @calculatedFrom(""abc""  ) , } options{ x
+=
+    255 ; u // " ++ [27880; 37322]%N ++ runes_of_ascii "
+= '0'	}
+")).
+Eval vm_compute in ("<<<M1751>>>" ++ check (runes_of_ascii "options {
+    A = i16;
+}
+
+/// triple
+root packet rootA {
+    @tag(7)
+    int16 pack,
+    Logon @calculatedFrom(""a\""b"") `{ , }`,
+    @rightPad('\x00')
+    //
+    //
+    char[7] options1 `tab	here`,
+    @calculatedFrom(""" ++ [233]%N ++ runes_of_ascii "t" ++ [233]%N ++ runes_of_ascii """)
+    int @lengthOf(Packet) `crlf
+        line`,
+}")).
+Eval vm_compute in ("<<<M267>>>" ++ check (runes_of_ascii "packet trueish{
+@leftPad (// @lengthOf(
+'0'  ) @tag(  3/// triple
+) @tag(
+7 ) repeat
+//x
+// @lengthOf(
+matchKey
+{ u32 u,
+}  , @lengthOf( chars
+) @calculatedFrom(
+""a	b"") @tag( 0123456789
+    )zchar[255 ]Pad ,  } root
+    packet u { }
+")).
+Eval vm_compute in ("<<<M1710>>>" ++ check (runes_of_ascii "  root packet 
+As 
+{  //
+
+char	charz
+    @lengthOf(
+
+    packetx ) `{ , }`
+
+    ,  //
+
+char[ 0123456789
+    ] MetaDataX
+    // " ++ [27880; 37322]%N ++ runes_of_ascii "
+    // `tick` ""quote"" 'q'
+    `it's`,
+
+    zchar[
+7
+
+]
+	o
+	`u8 x,`
+,
+
 } ")).
 Eval vm_compute in ("<<<M169>>>" ++ check (runes_of_ascii "root packet
     // `tick` ""quote"" 'q'
@@ -783,28 +937,33 @@ u16  chars	,
 //x
 }
 ")).
-Eval vm_compute in ("<<<M1256>>>" ++ check (runes_of_ascii "// top
-root // c0
-packet P // c2
-{ // c3
-hdr
-    // c4
-{
-    // c5
-u8 // c6
-a // c7a
-  // c7b
+Eval vm_compute in ("<<<M1841>>>" ++ check (runes_of_ascii "packet crc {
+    @leftPad()
+    repeat charz float,
+}
+
+root packet options1 {
+    @tag(65535)
+    packetx {
+        u128,
+        f32 a1,
+    },
+}
+// trailing space ")).
+Eval vm_compute in ("<<<M195>>>" ++ check (runes_of_ascii "MetaData msg_type {} root packet
+A{ repeat i32 leftPad
+`it's`
 ,
-    // c8
-} , // c10
-u8 // c11
-x // c12a
-  // c12b
-, }
-    // c14
-")).
-Eval vm_compute in ("<<<M411>>>" ++ check (runes_of_ascii "packet uint8x
-{ match pack pack
+    //x
+    }  root
+    packet a1
+    {char[
+    // c
+    255 ]
+    falsey // @lengthOf(
+, }")).
+Eval vm_compute in ("<<<M403>>>" ++ check (runes_of_ascii "packet uint8x
+007 match pack
     as msg_type	{
     0123456789 :	float
 }
@@ -814,25 +973,18 @@ a1
     { } options {packetx
     = '\x00'	; u128= ""a	b""  ; }
 ")).
-Eval vm_compute in ("<<<M451>>>" ++ check (runes_of_ascii "packet uint8x
+Eval vm_compute in ("<<<M550>>>" ++ check (runes_of_ascii "packet uint8x
 { match pack
     as msg_type	{
-    0123456789 :	float
+    0123456789 :	caf" ++ [233]%N ++ runes_of_ascii "_1
 }
-, ,
+,
 } packet //	t
 a1
     { } options {packetx
     = '\x00'	; u128= ""a	b""  ; }
 ")).
-Eval vm_compute in ("<<<M275>>>" ++ check (runes_of_ascii "MetaData
-stringy { zchar[10 ] crc,  }
-    packet u128
-{ repeat uint16  BodyLength `// not a comment`, @lengthOf( falsey ) _x ,
-char[ 42 ]  i8i8	, }
-
-")).
-Eval vm_compute in ("<<<M532>>>" ++ check (runes_of_ascii "packet uint8x
+Eval vm_compute in ("<<<M512>>>" ++ check (runes_of_ascii "packet uint8x
 { match pack
     as msg_type	{
     0123456789 :	float
@@ -841,255 +993,202 @@ Eval vm_compute in ("<<<M532>>>" ++ check (runes_of_ascii "packet uint8x
 } packet //	t
 a1
     { } options {packetx
-    = '\x00'	; u128= ""a	b""  ; )
+    = '\x00'	; =u128 ""a	b""  ; }
 ")).
-Eval vm_compute in ("<<<M1819>>>" ++ check (runes_of_ascii "
-
-  MetaData
-repeatCount 	 // c
-
-{char[ 
-42	// " ++ [27880; 37322]%N ++ runes_of_ascii "
-
-	] 
-	    // " ++ [128512]%N ++ runes_of_ascii " emoji
-	MetaDataX , 
-    // @lengthOf(
-    	zchar[ 
-// " ++ [27880; 37322]%N ++ runes_of_ascii "
-//x
-  0 ]
-    asx ,}
-
+Eval vm_compute in ("<<<M503>>>" ++ check (runes_of_ascii "packet uint8x
+{ match pack
+    as msg_type	{
+    0123456789 :	float
+}
+,
+} packet //	t
+a1
+    { } options {packetx
+    = char	; u128= ""a	b""  ; }
 ")).
-Eval vm_compute in ("<<<M705>>>" ++ check (runes_of_ascii "// @lengthOf(
+Eval vm_compute in ("<<<M691>>>" ++ check (runes_of_ascii "// @lengthOf(
 packet i8i8 { u128 o , }
-options { MetaDataX = true;
+options f64 MetaDataX = true;
     BodyLength =""packet"" x_y_z= 007
 crc //x
-= = ""abc"" ;
+= ""abc"" ;
     msg_type =
 i16 }")).
-Eval vm_compute in ("<<<M721>>>" ++ check (runes_of_ascii "// @lengthOf(
-packet i8i8 { u128 o , }
-options { MetaDataX = true;
+Eval vm_compute in ("<<<M715>>>" ++ check (runes_of_ascii "// @lengthOf(
+packet i8i8 { u128 o , options
+} { MetaDataX = true;
     BodyLength =""packet"" x_y_z= 007
 crc //x
-= ""abc"" msg_type
-    ; =
+= ""abc"" ;
+    msg_type =
 i16 }")).
-Eval vm_compute in ("<<<M1263>>>" ++ check (runes_of_ascii "
-packet B {u8 
-a ,
-}  root	packet P
-{
+Eval vm_compute in ("<<<M1845>>>" ++ check (runes_of_ascii "packet A {
+    match k as n {
+        [
+            ""a"", ""bb"", ""c c"", ""d"", ""e"",
+            ""f"", ""g""
+        ] : B,
+        2 : C,
+    },
+}")).
+Eval vm_compute in ("<<<M1494>>>" ++ check (runes_of_ascii "root packet As {
+    //
+    char charz @lengthOf(packetx) `{ , }`,//
+    char[0123456789] MetaDataX `it's`,
+    zchar[7] o `u8 x,`,
+}")).
+Eval vm_compute in ("<<<M1431>>>" ++ check (runes_of_ascii "packet A {
+    match k as n {
+        [
+            1, 22, ""c c"", 4, 5,
+            ""f""
+        ] : B,
+        2 : C,
+    },
+}")).
+Eval vm_compute in ("<<<M1887>>>" ++ check (runes_of_ascii "MetaData Packet {
+    u lengthOf `say ""hi""`,
+}
 
-    u8
-K, 
-u64	L
-@lengthOf(
-
-Body
-)	, match
-    K
-as
-
-    Body
-{ 1
-
-    : 
-B
-
-,
-}	, }
-
-")).
-Eval vm_compute in ("<<<M1743>>>" ++ check (runes_of_ascii "
-packet
-
-    A  {match
-
-    k
-    as
-
-    n
-    { [
-1	, 
-22, 
-""c c""
-    ,
-4,
-
-    5
-, ""f"" 
-,7
-,	8]	: B
-    2 :C  }
-    ,  }")).
-Eval vm_compute in ("<<<M343>>>" ++ check (runes_of_ascii "packet Header { repeat char[  0123456789 ]BodyLength`" ++ [28040; 24687; 31867; 22411]%N ++ runes_of_ascii "`/// triple
-, zchar[ 3
-    ] chars
-    ,// trailing space 
-A, } //")).
-Eval vm_compute in ("<<<M1144>>>" ++ check (runes_of_ascii "MetaData
-// c
-leftPad { chars MetaDataX , } packet repeatCount { char[ 255 ] uint8x `" ++ [233]%N ++ runes_of_ascii "` , } MetaData pack { As Foo , }")).
-Eval vm_compute in ("<<<M1176>>>" ++ check (runes_of_ascii "MetaData leftPad { chars MetaDataX , } packet repeatCount { char[ 255 ] uint8x `" ++ [233]%N ++ runes_of_ascii "` , }
-// c
-MetaData pack { As Foo , }")).
-Eval vm_compute in ("<<<M300>>>" ++ check (runes_of_ascii "packet
-Logon  { repeat u {zchar { zchar[ 007
-] a1
-`` ,  x_y_z@calculatedFrom(
+MetaData metadata {
+    crc chars `crlf
+        line`,
+    asx f32a,
+}")).
+Eval vm_compute in ("<<<M1171>>>" ++ check (runes_of_ascii "MetaData leftPad { chars MetaDataX , } packet repeatCount { char[ 255 ] uint8x `" ++ [233]%N ++ runes_of_ascii "` // c
+, } MetaData pack { As Foo , }")).
+Eval vm_compute in ("<<<M1852>>>" ++ check (runes_of_ascii "MetaData zchar {
+    uint8 _x `doc`,
+    float64 metadata `doc`,
+    zchar[42] x_y_z,
+    zchar[3] Logon `{ , }`,
+}")).
+Eval vm_compute in ("<<<M880>>>" ++ check (runes_of_ascii "packet A {
+  match k as n {
+    [""a"", ""bb"", ""c c"", ""d"", ""e"", ""f"", ""g"", ""h"", ""i"", ""j""] : B,
+    2 : C
+  },
+}")).
+Eval vm_compute in ("<<<M158>>>" ++ check (runes_of_ascii "
+MetaData charz { As u128 , Logon options1 `say ""hi""` ,
+    zchar[ 0
+// @lengthOf(
 //
-// " ++ [128512]%N ++ runes_of_ascii " emoji
-""{,}""
-    ), }, } ,}
+]Logon ,
+    }
 ")).
-Eval vm_compute in ("<<<M911>>>" ++ check (runes_of_ascii "packet A {
+Eval vm_compute in ("<<<M479>>>" ++ check (runes_of_ascii "packet uint8x
+{ match pack
+    as msg_type	{
+    0123456789 :	float
+}
+,
+} packet //	t
+a1
+    {")).
+Eval vm_compute in ("<<<M862>>>" ++ check (runes_of_ascii "packet A {
   match k as n {
-    [""a"", 22, ""c c"", 4, ""e"", 66, ""g"", 8, ""i"", 10, ""k"", 12] : B
+    [""a"", ""bb"", 007, ""d"", ""e"", 66, ""g"", ""h""] : B,
     2 : C
   },
 }")).
-Eval vm_compute in ("<<<M913>>>" ++ check (runes_of_ascii "packet A {
-  match k as n {
-    [1, 22, ""c c"", 4, 5, ""f"", 7, 8, ""i"", 10, 11, ""l""] : B
-    2 : C
-  },
-}")).
-Eval vm_compute in ("<<<M875>>>" ++ check (runes_of_ascii "packet A {
-  match k as n {
-    [""a"", ""bb"", 007, ""d"", ""e"", 66, ""g"", ""h"", 9] : B,
-    2 : C
-  },
-}")).
-Eval vm_compute in ("<<<M389>>>" ++ check (runes_of_ascii "root packet SimpleMessage {
-    uint16 MsgType `" ++ [28040; 24687; 31867; 22411]%N ++ runes_of_ascii "`,
-    string JsonBody `Json" ++ [23383; 31526; 20018; 28040; 24687; 20307]%N ++ runes_of_ascii "`,
-}")).
-Eval vm_compute in ("<<<M629>>>" ++ check (runes_of_ascii "
+Eval vm_compute in ("<<<M598>>>" ++ check (runes_of_ascii "
 packet
     asx {match u128 as lengthOf
+{
+//	t
+// `tick` ""quote"" 'q'
+255 : : x ,
+    } ,	}")).
+Eval vm_compute in ("<<<M555>>>" ++ check (runes_of_ascii "
+asx
+    packet {match u128 as lengthOf
 {
 //	t
 // `tick` ""quote"" 'q'
 255 : x ,
-    } ~ ,	}")).
-Eval vm_compute in ("<<<M599>>>" ++ check (runes_of_ascii "
-packet
-    asx {match u128 as lengthOf
-{
-//	t
-// `tick` ""quote"" 'q'
-255 x : ,
     } ,	}")).
-Eval vm_compute in ("<<<M1307>>>" ++ check (runes_of_ascii "  packet
-orderItem 
-{
-	u8
-    a
-    , 
-}root
-packet
-newOrder{ orderItem	, 
-u8
-x
-	,
-}")).
-Eval vm_compute in ("<<<M1847>>>" ++ check (runes_of_ascii "MetaData repeatCount {
-    char[42] MetaDataX,
-    // @lengthOf(
-    zchar[0] asx,
-}")).
-Eval vm_compute in ("<<<M616>>>" ++ check (runes_of_ascii "
-packet
-    asx {match u128 as lengthOf
-{
-//	t
-// `tick` ""quote"" 'q'
-255 : x ,")).
-Eval vm_compute in ("<<<M606>>>" ++ check (runes_of_ascii "
-packet
-    asx {match u128 as lengthOf
-{
-//	t
-// `tick` ""quote"" 'q'
-255 :")).
-Eval vm_compute in ("<<<M790>>>" ++ check (runes_of_ascii "packet A {
+Eval vm_compute in ("<<<M857>>>" ++ check (runes_of_ascii "packet A {
   match k as n {
-    [""a"", ""bb"", ""c c""] : B
+    [1, ""bb"", 007, ""d"", 5, ""f"", 7, ""h""] : B
     2 : C
   },
 }")).
-Eval vm_compute in ("<<<M1280>>>" ++ check (runes_of_ascii "root packet P {
-    u16 a,
-    u32 Sum @calculatedFrom(""CRC32""),
+Eval vm_compute in ("<<<M1657>>>" ++ check (runes_of_ascii "//
+packet metadata {
 }
-")).
-Eval vm_compute in ("<<<M1126>>>" ++ check (runes_of_ascii "// top
-MetaData
-    // c0
-u
-    // c1
+
+MetaData chars {
+    char[42] leftPad `crlf
+        line`,
+}")).
+Eval vm_compute in ("<<<M853>>>" ++ check (runes_of_ascii "packet A {
+  match k as n {
+    [1, 22, 007, 4, 5, 66, 7, 8] : B
+    2 : C
+  },
+}")).
+Eval vm_compute in ("<<<M269>>>" ++ check (runes_of_ascii "options
+{ Z9_ ='\x00'  } packet trueish
+{ // " ++ [128512]%N ++ runes_of_ascii " emoji
+u16 calculatedFrom
+, }")).
+Eval vm_compute in ("<<<M822>>>" ++ check (runes_of_ascii "packet A {
+  match k as n {
+    [1, 22, ""c c"", 4, 5] : B
+    2 : C
+  },
+}")).
+Eval vm_compute in ("<<<M791>>>" ++ check (runes_of_ascii "packet A {
+  match k as n {
+    [1, ""bb"", 007] : B,
+    2 : C
+  },
+}")).
+Eval vm_compute in ("<<<M155>>>" ++ check (runes_of_ascii "options
+{calculatedFrom
+= ""abc""
+;float=i16
+} // trailing space ")).
+Eval vm_compute in ("<<<M1683>>>" ++ check (runes_of_ascii "packet msg_type {
+    repeat zchar[007] Logon `two words`,
+}")).
+Eval vm_compute in ("<<<M148>>>" ++ check (runes_of_ascii "options
 {
-    // c2
-}
-    // c3
+    a1	=""packet""// a // b
+; } // @lengthOf(")).
+Eval vm_compute in ("<<<M1211>>>" ++ check (runes_of_ascii "packet body { i32 f32a `{ , }` , // c
+} options { }")).
+Eval vm_compute in ("<<<M1125>>>" ++ check (runes_of_ascii "// top
+MetaData // c0
+u // c1
+{ // c2
+} // c3
 ")).
-Eval vm_compute in ("<<<M1598>>>" ++ check (runes_of_ascii "options {
-    a = ""x\
-        y"";
-    b = ""x\
-        y""
+Eval vm_compute in ("<<<M772>>>" ++ check (runes_of_ascii "false int8 uint64 @lengthOf( , @leftPad :")).
+Eval vm_compute in ("<<<M1081>>>" ++ check (runes_of_ascii "options { a = 1; // a
+ b = 2 // b
+ }")).
+Eval vm_compute in ("<<<M105>>>" ++ check (runes_of_ascii "// " ++ [128512]%N ++ runes_of_ascii " emoji
+MetaData crc
+    {  }")).
+Eval vm_compute in ("<<<M988>>>" ++ check (runes_of_ascii "packet A {
+ u8 x `d" ++ [160]%N ++ runes_of_ascii "`, // c" ++ [160]%N ++ runes_of_ascii "
 }")).
-Eval vm_compute in ("<<<M1403>>>" ++ check (runes_of_ascii "options {
-    Logon = """ ++ [28040; 24687]%N ++ runes_of_ascii """;
-    BodyLength = false;
-}")).
-Eval vm_compute in ("<<<M332>>>" ++ check (runes_of_ascii "MetaData o
-    { } MetaData T  {
-    } options { }")).
-Eval vm_compute in ("<<<M1286>>>" ++ check (runes_of_ascii "
-
-  root
-    packet P{ 
-string
-	s
-
-    , }
+Eval vm_compute in ("<<<M581>>>" ++ check (runes_of_ascii "
+packet
+    asx {match u128")).
+Eval vm_compute in ("<<<M380>>>" ++ check (runes_of_ascii "root packet	Packet { }
 ")).
-Eval vm_compute in ("<<<M337>>>" ++ check (runes_of_ascii "//	t
-options
-// c
-// " ++ [128512]%N ++ runes_of_ascii " emoji
-{
-    } // c")).
-Eval vm_compute in ("<<<M1068>>>" ++ check (runes_of_ascii "options { a = 1 // c b = 2; // d}")).
-Eval vm_compute in ("<<<M1413>>>" ++ check (runes_of_ascii "root
-	packet A{  u8
-	x	`
-`
-,
-}
-
+Eval vm_compute in ("<<<M1109>>>" ++ check (runes_of_ascii "MetaData tag { // c
+}")).
+Eval vm_compute in ("<<<M278>>>" ++ check (runes_of_ascii "packet Packet { }
 ")).
-Eval vm_compute in ("<<<M1033>>>" ++ check (runes_of_ascii "packet A {
- u8 x `d" ++ [11]%N ++ runes_of_ascii "`, // c" ++ [11]%N ++ runes_of_ascii "
+Eval vm_compute in ("<<<M1052>>>" ++ check (runes_of_ascii "// c" ++ [65279]%N ++ runes_of_ascii "
+packet A {
 }")).
-Eval vm_compute in ("<<<M1852>>>" ++ check (runes_of_ascii "  packet 
-A {  }
-    // c" ++ [12]%N)).
-Eval vm_compute in ("<<<M1512>>>" ++ check (runes_of_ascii "root packet falsey {
-}")).
-Eval vm_compute in ("<<<M1651>>>" ++ check (runes_of_ascii "  // only a comment
-")).
-Eval vm_compute in ("<<<M996>>>" ++ check (runes_of_ascii "packet A {
-}
-// c" ++ [5760]%N)).
-Eval vm_compute in ("<<<M1666>>>" ++ check (runes_of_ascii "// trailing space ")).
-Eval vm_compute in ("<<<M1925>>>" ++ check (runes_of_ascii "packet falsey {
-}")).
-Eval vm_compute in ("<<<M1447>>>" ++ check (runes_of_ascii "packet x {
-}")).
-Eval vm_compute in ("<<<M1025>>>" ++ check (runes_of_ascii "// c" ++ [8287]%N)).
+Eval vm_compute in ("<<<M1224>>>" ++ check (runes_of_ascii "// c
+packet x { }")).
+Eval vm_compute in ("<<<M742>>>" ++ check (runes_of_ascii "'j=KG=k_)FDOq")).
+Eval vm_compute in ("<<<M1005>>>" ++ check (runes_of_ascii "// c" ++ [8202]%N)).
+Eval vm_compute in ("<<<M734>>>" ++ check ([65279]%N)).
